@@ -4365,6 +4365,16 @@ impl<'a, const HAS_CR: bool> Parser<'a, HAS_CR> {
     /// Parse an unquoted key in flow context.
     /// Stops at `:`, `,`, `}`, `]`, or whitespace before those.
     /// Handles multiline keys (continues across newlines with proper indentation).
+    /// Does the byte after a `:` make it a flow mapping value indicator (rather than
+    /// plain-scalar content)?
+    #[inline]
+    fn is_flow_value_indicator(next: Option<u8>) -> bool {
+        matches!(
+            next,
+            None | Some(b' ' | b'\t' | b'\n' | b'\r' | b',' | b'[' | b']' | b'{' | b'}')
+        )
+    }
+
     fn parse_flow_unquoted_key(&mut self) -> Result<usize, YamlError> {
         // #224 (was #369's reject-only gate): consume a tag at the start of a
         // flow key. `parse_flow_key` is the only caller, from two call sites
@@ -4379,6 +4389,10 @@ impl<'a, const HAS_CR: bool> Parser<'a, HAS_CR> {
 
         while let Some(b) = self.peek() {
             match b {
+                // A `:` ends the key only as a value indicator — before white space, a
+                // line break, a flow indicator or the end. Glued to anything else it is
+                // key content (`{a:b: 1}`, `{a :b: 1}`), as in a flow value.
+                b':' if !Self::is_flow_value_indicator(self.peek_at(1)) => self.advance(),
                 b':' | b',' | b'}' | b']' => break,
                 b'#' => {
                     // # starts a comment only after s-separate-in-line (space or
@@ -4429,6 +4443,14 @@ impl<'a, const HAS_CR: bool> Parser<'a, HAS_CR> {
                     while lookahead < self.input.len() {
                         match self.input[lookahead] {
                             b' ' | b'\t' => lookahead += 1,
+                            b':' if !Self::is_flow_value_indicator(
+                                self.input.get(lookahead + 1).copied(),
+                            ) =>
+                            {
+                                // ` :x` continues the key
+                                self.advance();
+                                break;
+                            }
                             b':' | b',' | b'}' | b']' => {
                                 // Whitespace before delimiter - stop here
                                 break;
@@ -4445,10 +4467,11 @@ impl<'a, const HAS_CR: bool> Parser<'a, HAS_CR> {
                         }
                     }
                     if lookahead == self.input.len()
-                        || matches!(
-                            self.input[lookahead],
-                            b':' | b',' | b'}' | b']' | b'\n' | b'\r'
-                        )
+                        || matches!(self.input[lookahead], b',' | b'}' | b']' | b'\n' | b'\r')
+                        || (self.input[lookahead] == b':'
+                            && Self::is_flow_value_indicator(
+                                self.input.get(lookahead + 1).copied(),
+                            ))
                     {
                         break;
                     }
